@@ -75,9 +75,11 @@ macro_rules! impl_tuples {
             }
         }
 
-		impl<T: ZeroCopy + TypeHash + AlignHash> SerializeInner for ($($t,)*) {
+		impl<T: ZeroCopy + SerializeInner + TypeHash + AlignHash> SerializeInner for ($($t,)*) {
             type SerType = Self;
-            const IS_ZERO_COPY: bool = true;
+            // A tuple is serialized as raw memory, so it is zero-copy only
+            // if its elements actually are.
+            const IS_ZERO_COPY: bool = T::IS_ZERO_COPY;
             const ZERO_COPY_MISMATCH: bool = false;
 
             #[inline(always)]
